@@ -539,3 +539,50 @@ def _text_trace_ok(self, page, trace):
 
 
 c.ens("text-is-the-in-order-concatenation-with-box-breaks-and-form-feed", lambda self, ltpage, trace: _text_trace_ok(self, ltpage, trace))
+
+
+# -- every piece of output is encoded by ONE incremental encoder of the requested codec, whatever the text is ----------------------------------------
+import codecs as _codecs
+
+
+def _getinc_model(I, args, kw, node):
+    codec = args[0]
+    I.trace.append(("codecs.getincrementalencoder", {"codec": codec}))
+
+    def factory(I2, errors="strict"):
+        enc = SObj(None, {"_codec": codec, "_errors": errors, "_fed": []}, "encoder")
+        from pyvc.values import SymFn
+        enc.f["encode"] = SymFn(lambda I3, text, enc=enc: (enc.f["_fed"].append(text), ("bytes-of", len(enc.f["_fed"])))[1], "encode")
+        I2.trace.append(("encoder-created", {"codec": codec, "errors": errors, "encoder": enc}))
+        return enc
+    from pyvc.values import SymFn
+    return SymFn(factory, "IncrementalEncoder")
+
+
+builtins_model.LIB[_codecs.getincrementalencoder] = _getinc_model
+
+sc = scenario("pdfminer.converter", "one-encoder-for-the-whole-output", """
+def encode_three_pieces(conv, a, b, c):
+    x = conv._encode(a)
+    y = conv._encode(b)
+    z = conv._encode(c)
+    return (x, y, z, conv._encoder)
+""", props=["C11"])
+sc.param("conv", T.Obj("pdfminer.converter:PDFConverter", codec=T.OneOf("utf-8", "utf-16", "latin-1"), _encoder=T.Const(None)))
+sc.param("a", T.Str()).param("b", T.Str()).param("c", T.Str())
+sc.skip_cross = True
+sc.inline_callees = True
+sc.mod("conv._encoder")
+sc.returns(T.Opaque("tuple"))
+def _one_encoder(conv, a, b, c, result, trace):
+    names = [n for n, _b in trace]
+    if names != ["codecs.getincrementalencoder", "encoder-created"] or trace[0][1]["codec"] != conv.codec:
+        return False
+    enc = trace[1][1]["encoder"]
+    if not (isinstance(result, tuple) and len(result) == 4 and result[3] is enc and len(enc.f["_fed"]) == 3):
+        return False
+    fed = enc.f["_fed"]
+    return fed[0] is a and fed[1] is b and fed[2] is c and tuple(result[:3]) == (("bytes-of", 1), ("bytes-of", 2), ("bytes-of", 3))
+
+
+sc.ens("every-piece-whatever-its-characters-goes-through-the-single-encoder-of-the-requested-codec", _one_encoder)
